@@ -1,5 +1,6 @@
 import Frp.Model.Wire
 import Frp.Model.WireReload
+import Frp.Model.WireConfig
 import Frp.Gen.AuthFacts
 /-
   C05 — Configured encryption really protects the wire; TLS identity rules are enforced.   (PARTIAL)
@@ -530,6 +531,91 @@ theorem identOk_sound (cert ca : Bool) (sn : Str) (p : Pki) :
   · intro h hca
     simpa [identOk, hca] using h
 
+/-! ## C4. wss: TLS whatever `transport.tls.enable` says; the identity rule against the endpoint that
+      terminates it (a TLS reverse proxy in front of frps — frps itself has no wss listener) -/
+
+/-- the connector builds a tls.Config exactly when tls.enable is on OR the transport is TLS by itself
+    (wss: `if protocol == "wss" { tlsEnable = true }`; quic: always a config) -/
+theorem clientTls_isSome_iff (c : ClientCfg) :
+    (clientTls c).isSome = (c.tlsEnable || tlsRequired c.protocol) := by
+  cases hp : c.protocol <;> cases ht : c.tlsEnable <;> simp [clientTls, hp, ht, tlsRequired]
+
+/-- wss: the FULL configured tls.Config — certificate, trusted CA, server name — whether
+    `transport.tls.enable` is true or false -/
+theorem wss_tls_config_ignores_enable (c : ClientCfg) (hp : c.protocol = .wss) :
+    clientTls c = some (clientTlsOf c.certGiven c.trustedCA (effServerName c)) := by
+  simp [clientTls, hp]
+
+/-- a wss client with a trusted CA verifies chain and name, tls.enable on or off -/
+theorem wss_ca_always_verifies (c : ClientCfg) (hp : c.protocol = .wss) (hca : c.trustedCA = true) :
+    ∃ ct, clientTls c = some ct ∧ ct.insecureSkipVerify = false ∧ ct.hasRootCAs = true ∧
+      ct.serverName = effServerName c :=
+  ⟨_, wss_tls_config_ignores_enable c hp, by simp [clientTlsOf, hca], by simp [clientTlsOf, hca],
+    by simp [clientTlsOf]⟩
+
+/-- behind the terminator frps sees a plain websocket client: a session iff it does not force TLS -/
+theorem behindTerminator_session_iff (s : ServerCfg) (c : ClientCfg) (p : Pki) :
+    sessionUp s (behindTerminator c) p = !serverForce s := by
+  cases hm : c.tcpMux <;> cases hf : serverForce s <;>
+    simp [sessionUp, behindTerminator, clientFirstBytes, clientDial, clientHooks, clientTls, hm, sniff, hf]
+
+/-- a wss session through a terminator: the client's verdict on the terminator's certificate under the
+    FULL configured tls.Config, and a frps that does not force TLS on the stream it gets -/
+theorem wssSessionVia_eq (s : ServerCfg) (c : ClientCfg) (p : Pki) (t : Terminator) :
+    wssSessionVia s c p t =
+      (terminatorAccepted (clientTlsOf c.certGiven c.trustedCA (effServerName c)) t p && !serverForce s) := by
+  simp [wssSessionVia, clientTls, effServerName, behindTerminator_session_iff]
+
+/-- `transport.tls.enable` plays no role for wss -/
+theorem wss_tls_enable_irrelevant (s : ServerCfg) (c : ClientCfg) (p : Pki) (t : Terminator) (b : Bool) :
+    wssSessionVia s { c with tlsEnable := b } p t = wssSessionVia s c p t := by
+  rw [wssSessionVia_eq, wssSessionVia_eq]
+  simp [effServerName]
+
+/-- **a wss client given a trusted CA (and a server name, or `serverAddr` by default) refuses an
+    endpoint that presents another identity** — a certificate of another CA, or one of the trusted CA
+    for another name —, with `transport.tls.enable` true or false -/
+theorem wss_client_refuses_other_identity (s : ServerCfg) (c : ClientCfg) (p : Pki) (t : Terminator)
+    (hca : c.trustedCA = true)
+    (hbad : t.issuer ≠ p.cliRootCA ∨ certMatchesName (t.pki p) (effServerName c) = false) :
+    wssSessionVia s c p t = false := by
+  rw [wssSessionVia_eq]
+  have : terminatorAccepted (clientTlsOf c.certGiven c.trustedCA (effServerName c)) t p = false := by
+    rcases hbad with h | h
+    · simp [terminatorAccepted, serverCertAccepted, clientTlsOf, hca, Terminator.pki, h]
+    · simp [terminatorAccepted, serverCertAccepted, clientTlsOf, hca, h]
+  simp [this]
+
+/-- a wss session of a verifying client implies the matching identity (and a non-forcing frps) -/
+theorem wss_session_requires_matching_identity (s : ServerCfg) (c : ClientCfg) (p : Pki) (t : Terminator)
+    (hca : c.trustedCA = true) (h : wssSessionVia s c p t = true) :
+    t.issuer = p.cliRootCA ∧ certMatchesName (t.pki p) (effServerName c) = true ∧ serverForce s = false := by
+  refine ⟨?_, ?_, ?_⟩
+  · cases hi : decide (t.issuer = p.cliRootCA)
+    · have hne : t.issuer ≠ p.cliRootCA := by simpa using hi
+      rw [wss_client_refuses_other_identity s c p t hca (Or.inl hne)] at h
+      exact absurd h (by decide)
+    · simpa using hi
+  · cases hm : certMatchesName (t.pki p) (effServerName c)
+    · rw [wss_client_refuses_other_identity s c p t hca (Or.inr hm)] at h
+      exact absurd h (by decide)
+    · rfl
+  · rw [wssSessionVia_eq] at h
+    cases hf : serverForce s
+    · rfl
+    · simp [hf] at h
+
+/-- executable predicate for one observed wss connection attempt through a terminator: frps answers
+    with a frame only for a client the model gives a session -/
+def interpretedOkWss (s : ServerCfg) (c : ClientCfg) (p : Pki) (t : Terminator) (interpreted : Bool) : Bool :=
+  !interpreted || wssSessionVia s c p t
+
+theorem interpretedOkWss_identity (s : ServerCfg) (c : ClientCfg) (p : Pki) (t : Terminator)
+    (hca : c.trustedCA = true) (h : interpretedOkWss s c p t true = true) :
+    t.issuer = p.cliRootCA ∧ certMatchesName (t.pki p) (effServerName c) = true :=
+  have h' := wss_session_requires_matching_identity s c p t hca (by simpa [interpretedOkWss] using h)
+  ⟨h'.1, h'.2.1⟩
+
 /-! ## D. what crosses the path -/
 
 theorem msgKinds_complete (k : MsgKind) : k ∈ MsgKind.all := by
@@ -852,6 +938,101 @@ theorem reloadObsOk_model (tls : Bool) (cfgs0 : List PxCfg) (evs : List Ev) (p :
 
 end Reload
 
+/-! ## H. the configuration AS WRITTEN: nothing between the file and the work connection drops the flag
+
+  Model: Frp/Model/WireConfig.lean (`ProxyBaseConfig.Complete`, the plugin options' `Complete`,
+  `MarshalToMsg` / `UnmarshalFromMsg`, `NewProxyConfigurerFromMsg`).  For every proxy type, every
+  client plugin, every name prefix. -/
+section Written
+open WireConfig
+
+theorem pxTypes_complete (t : PxType) : t ∈ PxType.all := by cases t <;> decide
+
+theorem plugins_complete (p : Plugin) : p ∈ Plugin.all := by cases p <;> decide
+
+theorem completePlugin_only_http2 (b : Base) : { completePlugin b with enableHTTP2 := b.enableHTTP2 } = b := by
+  unfold completePlugin; split <;> rfl
+
+/-- `Complete` leaves useEncryption / useCompression (and type, plugin) exactly as written — for
+    every proxy type, plugin and prefix -/
+theorem complete_keeps_flags (pfx : Str) (b : Base) :
+    (complete pfx b).enc = b.enc ∧ (complete pfx b).comp = b.comp ∧ (complete pfx b).type = b.type ∧
+      (complete pfx b).plugin = b.plugin := by
+  unfold complete completePlugin; split <;> simp
+
+/-- the ONLY fields `Complete` writes: name, localIP, bandwidthLimitMode, the plugin's enableHTTP2 -/
+theorem complete_writes_only (pfx : Str) (b : Base) :
+    { complete pfx b with name := b.name, localIP := b.localIP, limitMode := b.limitMode
+                        , enableHTTP2 := b.enableHTTP2 } = b := by
+  unfold complete completePlugin; split <;> rfl
+
+/-- the NewProxy message carries the two flags unchanged, and frps's configurer reads them back -/
+theorem marshal_unmarshal_flags (b : Base) :
+    (marshal b).useEncryption = b.enc ∧ (marshal b).useCompression = b.comp ∧
+    (unmarshal (marshal b)).enc = b.enc ∧ (unmarshal (marshal b)).comp = b.comp ∧
+    (serverCfgOf (marshal b)).enc = b.enc ∧ (serverCfgOf (marshal b)).comp = b.comp := by
+  refine ⟨rfl, rfl, rfl, rfl, ?_, ?_⟩
+  · exact (complete_keeps_flags [] (unmarshal (marshal b))).1
+  · exact (complete_keeps_flags [] (unmarshal (marshal b))).2.1
+
+/-- **both ends wrap exactly when the operator wrote useEncryption** — any type, any plugin -/
+theorem written_enc_both_ends (user : Str) (w : Base) :
+    clientEnc user w = w.enc ∧ serverEnc user w = w.enc := by
+  have h1 := (complete_keeps_flags user w).1
+  refine ⟨h1, ?_⟩
+  unfold serverEnc loaded
+  rw [(marshal_unmarshal_flags (complete user w)).2.2.2.2.1, h1]
+
+/-- the payload of a proxy is readable on the path exactly when the transport has no TLS and the
+    operator did not write useEncryption -/
+theorem written_payload_clear_iff (tls : Bool) (user : Str) (w : Base) :
+    payloadClear (pathOfWritten tls user w) = true ↔ (tls = false ∧ w.enc = false) := by
+  have h := written_enc_both_ends user w
+  cases tls <;> cases he : w.enc <;>
+    simp [pathOfWritten, h.1, h.2, he, payloadClear, onNetworkPath, layers]
+
+/-- **when the WRITTEN configuration of a proxy says useEncryption its payload is under the cipher
+    layer, with or without TLS — whatever its type and whatever client plugin it uses** -/
+theorem written_enc_payload_never_clear (tls : Bool) (user : Str) (w : Base) (he : w.enc = true) :
+    payloadClear (pathOfWritten tls user w) = false ∧
+      Layer.proxyCipher ∈ layers (pathOfWritten tls user w) .workStream := by
+  have h := written_enc_both_ends user w
+  exact useEncryption_covers_payload (pathOfWritten tls user w) (by simp [pathOfWritten, h.1, h.2, he])
+
+/-- … and over the life of an frpc: in every history of reloads and reconnects, a running proxy whose
+    entry in the configuration in force was loaded (`Complete`) from a written configuration that
+    says useEncryption has the cipher layer -/
+theorem written_reload_enc_payload_never_clear (tls : Bool) (cfgs0 : List WireReload.PxCfg)
+    (evs : List WireReload.Ev) (p : WireReload.Px) (c : WireReload.PxCfg) (user : Str) (w : Base)
+    (hp : p ∈ (WireReload.run (WireReload.start cfgs0) evs).running)
+    (hc : WireReload.lookupLast (WireReload.run (WireReload.start cfgs0) evs).cfgs p.cfg.name = some c)
+    (hw : c.enc = (loaded user w).enc) (he : w.enc = true) :
+    payloadClear (WireReload.pathOf tls p) = false ∧
+      Layer.proxyCipher ∈ layers (WireReload.pathOf tls p) .workStream :=
+  reload_enc_payload_never_clear tls cfgs0 evs p c hp hc
+    (by rw [hw]; exact (complete_keeps_flags user w).1.trans he)
+
+/-- executable predicate for one loaded configuration (op `cfgload`): written useEncryption ⇒ the
+    loaded configurer, the NewProxy message and frps's configurer all say useEncryption -/
+def writtenKeptOk (wEnc lEnc mEnc sEnc : Bool) : Bool := !wEnc || (lEnc && mEnc && sEnc)
+
+theorem writtenKeptOk_model (user : Str) (w : Base) :
+    writtenKeptOk w.enc (loaded user w).enc (marshal (loaded user w)).useEncryption
+      (serverCfgOf (marshal (loaded user w))).enc = true := by
+  have h1 : (loaded user w).enc = w.enc := (complete_keeps_flags user w).1
+  have h2 := marshal_unmarshal_flags (loaded user w)
+  rw [h2.1, h2.2.2.2.2.1, h1]
+  cases w.enc <;> rfl
+
+/-- the rig's observation predicate (`reloadObsOk`) holds of the model for a written configuration -/
+theorem writtenObsOk_model (tls : Bool) (user : Str) (w : Base) :
+    reloadObsOk tls w.enc (payloadClear (pathOfWritten tls user w)) = true := by
+  have h := written_enc_both_ends user w
+  cases tls <;> cases he : w.enc <;>
+    simp [reloadObsOk, pathOfWritten, h.1, h.2, he, payloadClear, onNetworkPath, layers]
+
+end Written
+
 /-! ## F. facts regenerated from the source on every run (translate/gen_authfacts.go → Frp/Gen/AuthFacts.lean)
 
   These are checked against what the Go files say NOW; a change of the code changes the generated
@@ -1073,6 +1254,81 @@ theorem gen_enc_wrap_conditions :
        "server/proxy/udp.go Run: pxy.cfg.Transport.UseEncryption"] := by
   decide +kernel
 
+/-- pkg/config/v1: the proxy configurers have ONE `Complete` (ProxyBaseConfig's, no per-type override); it
+    assigns exactly Name, LocalIP and Transport.BandwidthLimitMode, calls nothing but the plugin options'
+    `Complete()`, takes no address of its fields; the only plugin option methods with a body write
+    EnableHTTP2; `MarshalToMsg` / `UnmarshalFromMsg` copy the two flags; the client loader and
+    `NewProxyConfigurerFromMsg` call Complete as modelled.  So: **the encryption flags are not among the
+    fields Complete writes** (no written path is `Transport.UseEncryption` / `Transport.UseCompression`
+    or a prefix of them) — `WireConfig.complete` -/
+theorem gen_proxy_complete :
+    proxyCompleteImpls = ["proxy.go ProxyBaseConfig"] ∧
+    proxyCompleteWrites =
+      ["Name = lo.Ternary(namePrefix == \"\", \"\", namePrefix+\".\") + c.Name",
+       "LocalIP = util.EmptyOr(c.LocalIP, \"127.0.0.1\")",
+       "Transport.BandwidthLimitMode = util.EmptyOr(c.Transport.BandwidthLimitMode, types.BandwidthLimitModeClient)"] ∧
+    proxyCompleteCalls = ["c.Plugin.ClientPluginOptions != nil: c.Plugin.ClientPluginOptions.Complete()"] ∧
+    proxyCompleteAddrTaken = [] ∧
+    (∀ p ∈ proxyCompleteWrittenPaths,
+      p ∉ ["", "Transport", "Transport.UseEncryption", "Transport.UseCompression"]) ∧
+    pluginCompleteStmts =
+      ["HTTPS2HTTPPluginOptions: o.EnableHTTP2 = util.EmptyOr(o.EnableHTTP2, lo.ToPtr(true))",
+       "HTTPS2HTTPSPluginOptions: o.EnableHTTP2 = util.EmptyOr(o.EnableHTTP2, lo.ToPtr(true))"] ∧
+    proxyMsgFlagStmts =
+      ["MarshalToMsg: m.UseEncryption = c.Transport.UseEncryption",
+       "MarshalToMsg: m.UseCompression = c.Transport.UseCompression",
+       "UnmarshalFromMsg: c.Transport.UseEncryption = m.UseEncryption",
+       "UnmarshalFromMsg: c.Transport.UseCompression = m.UseCompression"] ∧
+    loaderCompleteCalls =
+      ["LoadClientConfig: cliCfg != nil: cliCfg.Complete()", "LoadClientConfig: for: c.Complete(cliCfg.User)",
+       "LoadClientConfig: for: c.Complete(cliCfg)", "NewProxyConfigurerFromMsg: configurer.UnmarshalFromMsg(m)",
+       "NewProxyConfigurerFromMsg: configurer.Complete(\"\")"] ∧
+    proxyTypes = WireConfig.PxType.all.map WireConfig.PxType.name ∧
+    "none" :: clientPluginTypes = WireConfig.Plugin.all.map WireConfig.Plugin.name ∧
+    pluginCompleteImpls.length + 1 = WireConfig.Plugin.all.length ∧
+    (∀ pfx b, (WireConfig.complete pfx b).enc = b.enc ∧ (WireConfig.complete pfx b).comp = b.comp) := by
+  refine ⟨by decide +kernel, by decide +kernel, by decide +kernel, by decide +kernel, by decide +kernel,
+    by decide +kernel, by decide +kernel, by decide +kernel, by decide +kernel, by decide +kernel,
+    by decide +kernel, fun pfx b => ⟨(complete_keeps_flags pfx b).1, (complete_keeps_flags pfx b).2.1⟩⟩
+
+/-- pkg/config/v1/visitor.go: the visitors' `Complete` (the stcp / sudp / xtcp visitor leg has its own
+    transport.useEncryption) write the bind address, the two names and the xtcp retry / fallback defaults —
+    nothing of `Transport` -/
+theorem gen_visitor_complete :
+    visitorCompleteWrites =
+      ["VisitorBaseConfig: BindAddr", "VisitorBaseConfig: Name", "VisitorBaseConfig: ServerName",
+       "VisitorBaseConfig: ServerName", "XTCPVisitorConfig: Protocol", "XTCPVisitorConfig: MaxRetriesAnHour",
+       "XTCPVisitorConfig: MinRetryInterval", "XTCPVisitorConfig: FallbackTimeoutMs", "XTCPVisitorConfig: FallbackTo",
+       "XTCPVisitorConfig: call c.VisitorBaseConfig.Complete(g)"] ∧
+    (∀ x ∈ visitorCompleteWrites, ∀ r ∈ ["VisitorBaseConfig: ", "XTCPVisitorConfig: "],
+      x ∉ [r, r ++ "Transport", r ++ "Transport.UseEncryption", r ++ "Transport.UseCompression",
+           r ++ "VisitorBaseConfig", r ++ "VisitorBaseConfig.Transport"]) := by
+  constructor <;> decide +kernel
+
+/-- client/connector.go realConnect: a tls.Config is built under `tlsEnable`, which is
+    `transport.tls.enable` and is set to true for wss — `tlsRequired`, `clientTls`; the wss dial runs the
+    TLS hook (priority 100) with that config before the websocket hook (priority 110) and installs no
+    custom-byte hook — `clientHooks` -/
+theorem gen_connector_tls_required :
+    clientDialTLSEnable =
+      { name := "tlsEnable"
+      , inits := ["lo.FromPtr(c.cfg.Transport.TLS.Enable)", "c.cfg.Transport.Protocol == \"wss\": true"]
+      , writes := [] } ∧
+    clientDialOptions =
+      ["case \"websocket\": libnet.WithAfterHook(libnet.AfterHook{Hook: netpkg.DialHookWebsocket(protocol, \"\")})",
+       "case \"websocket\": libnet.WithAfterHook(libnet.AfterHook{ Hook: netpkg.DialHookCustomTLSHeadByte(tlsConfig != nil, lo.FromPtr(c.cfg.Transport.TLS.DisableCustomTLSFirstByte)), })",
+       "case \"websocket\": libnet.WithTLSConfig(tlsConfig)",
+       "case \"wss\": libnet.WithTLSConfigAndPriority(100, tlsConfig)",
+       "case \"wss\": libnet.WithAfterHook(libnet.AfterHook{Hook: netpkg.DialHookWebsocket(protocol, tlsConfig.ServerName), Priority: 110})",
+       "default: libnet.WithAfterHook(libnet.AfterHook{ Hook: netpkg.DialHookCustomTLSHeadByte(tlsConfig != nil, lo.FromPtr(c.cfg.Transport.TLS.DisableCustomTLSFirstByte)), })",
+       "default: libnet.WithTLSConfig(tlsConfig)"] ∧
+    (∀ c : ClientCfg, (clientTls c).isSome = (c.tlsEnable || tlsRequired c.protocol)) ∧
+    (∀ c : ClientCfg, c.protocol = .wss →
+      clientTls c = some (clientTlsOf c.certGiven c.trustedCA (effServerName c)) ∧
+      clientHooks c = [.tls, .websocket]) := by
+  refine ⟨by decide +kernel, by decide +kernel, clientTls_isSome_iff, fun c hp => ?_⟩
+  exact ⟨wss_tls_config_ignores_enable c hp, by simp [clientHooks, hp]⟩
+
 end Generated
 
 /-! ## Non-vacuity -/
@@ -1160,6 +1416,30 @@ example :
 example : identOk true (Str.ofString "127.0.0.1")
     { srvCertIssuer := some 1, srvCertDNS := [Str.ofString "other.test"], cliRootCA := 1 } true = false := by
   decide +kernel
+
+-- wss through a terminator: a verifying client with tls.enable = FALSE gets a session from the genuine
+-- endpoint and none from an impostor of another CA / an endpoint of the trusted CA with another name
+example : wssSessionVia { force := false, trustedCA := false, certGiven := false }
+    { tlsEnable := false, disableCustomFirstByte := true, protocol := .wss, trustedCA := true, certGiven := false
+    , serverName := Str.ofString "frps.test", serverAddr := Str.ofString "127.0.0.1" } { cliRootCA := 1 }
+    { issuer := 1, dns := [Str.ofString "frps.test"] } = true := by decide +kernel
+example : wssSessionVia { force := false, trustedCA := false, certGiven := false }
+    { tlsEnable := false, disableCustomFirstByte := true, protocol := .wss, trustedCA := true, certGiven := false
+    , serverName := Str.ofString "frps.test", serverAddr := Str.ofString "127.0.0.1" } { cliRootCA := 1 }
+    { issuer := 2, dns := [Str.ofString "frps.test"] } = false := by decide +kernel
+example : wssSessionVia { force := false, trustedCA := false, certGiven := false }
+    { tlsEnable := false, disableCustomFirstByte := true, protocol := .wss, trustedCA := true, certGiven := false
+    , serverName := Str.ofString "frps.test", serverAddr := Str.ofString "127.0.0.1" } { cliRootCA := 1 }
+    { issuer := 1, dns := [Str.ofString "other.test"] } = false := by decide +kernel
+-- the written configuration: a tcp proxy with plugin http2https and useEncryption written, user "u"
+example :
+    let w : WireConfig.Base := { name := Str.ofString "web", type := .tcp, localIP := [], limitMode := []
+                               , enc := true, comp := false, plugin := .http2https, enableHTTP2 := none }
+    ((WireConfig.loaded (Str.ofString "u") w).name, (WireConfig.loaded (Str.ofString "u") w).enc,
+      WireConfig.serverEnc (Str.ofString "u") w, payloadClear (WireConfig.pathOfWritten false (Str.ofString "u") w))
+      = (Str.ofString "u.web", true, true, false) := by decide +kernel
+-- the predicate is not trivially true: a loader that drops the flag fails it
+example : writtenKeptOk true false false false = false := rfl
 
 end C05
 end Frp
